@@ -7,6 +7,7 @@ from .common import coverage_finalize, layout, wellformed_campaign
 
 ID = "C20"
 LEVEL = "exploration"
+HISTORY = True  # every second shard first runs a prelude of earlier library use (history.py)
 EXHAUSTIVE = True
 RULE = (
     "exhaustive enumeration of the finite configuration space: every one of the 248 structure types x fields, every union x every "
